@@ -341,7 +341,7 @@ func check(prop, tier string) int {
 		}
 	}
 	os.MkdirAll(filepath.Join(verifDir, "out", "replay"), 0o755)
-	var nObl, nDis, nCover, nCoverOK, nCoverUndecided, nBounded, nBoundedOK, violations int
+	var nObl, nDis, nCover, nCoverOK, nCoverGround, nCoverUndecided, nBounded, nBoundedOK, violations int
 	var solverMs int64
 	var samples []map[string]interface{}
 	var knownOut []string
@@ -358,6 +358,9 @@ func check(prop, tier string) int {
 				nCoverUndecided++
 			} else if o.ok() {
 				nCoverOK++
+				if strings.HasSuffix(o.Result.Solver, "/ground") {
+					nCoverGround++
+				}
 			} else {
 				failed = append(failed, o)
 			}
@@ -457,7 +460,7 @@ func check(prop, tier string) int {
 			"samples":      samples,
 			"explanation":  "Every obligation is generated from the current /repo working tree (go/packages, -tags verif) for the functions listed in functions_under_contract and must be unsat (valid) in one of the SMT solvers; cover obligations must be sat.",
 			"functions_under_contract": funcs,
-			"cover_obligations":        map[string]int{"total": nCover, "sat": nCoverOK, "undecided": nCoverUndecided},
+			"cover_obligations":        map[string]int{"total": nCover, "sat": nCoverOK, "sat_quantifier_free_part_only": nCoverGround, "undecided": nCoverUndecided},
 			"bounded":                  map[string]int{"total": nBounded, "discharged": nBoundedOK},
 			"discharged_by_solver":     bySolver,
 			"solver_time_s":            float64(solverMs) / 1000.0,
